@@ -27,7 +27,7 @@ TECHNIQUE = "property-based testing (Hypothesis): stateful history generation + 
 
 
 def cases(tier):
-    return 2400 if tier == "quick" else 320000
+    return 2400 if tier == "quick" else 240000
 
 
 def strategy(hazards):
